@@ -1,27 +1,36 @@
 #!/usr/bin/env python3
-"""apply a seeded mutation to /repo, run the given checks (quick tier), undo it, record which checks caught it.
+"""apply a seeded mutation to a scratch worktree of /repo (never to /repo itself), run the given checks against it, remove
+the worktree, record which checks caught it in seeded/<name>/meta.json.
 usage: run_seeded.py <seeded-name> <ID> [<ID> ...] [--tier quick|thorough]"""
-import json, os, subprocess, sys, shutil
+import json, os, subprocess, sys, shutil, tempfile
 args = sys.argv[1:]
 tier = "quick"
 if "--tier" in args:
     i = args.index("--tier"); tier = args[i + 1]; del args[i:i + 2]
 name, ids = args[0], args[1:]
 d = os.path.join("/verif/seeded", name)
-assert subprocess.run("git -C /repo status --porcelain --untracked-files=no", shell=True, capture_output=True, text=True).stdout.strip() == "", "/repo not clean"
-p = subprocess.run("git -C /repo apply --3way %s/patch.diff" % d, shell=True, capture_output=True, text=True)
-if p.returncode != 0:
-    print("patch does not apply:", p.stderr); sys.exit(2)
+scratch = tempfile.mkdtemp(prefix="seeded-%s-" % name, dir="/var/tmp")
+wt = os.path.join(scratch, "repo")
+subprocess.run(["git", "-C", "/repo", "worktree", "add", "--detach", wt, "HEAD"], check=True, capture_output=True)
 res = {}
 try:
+    p = subprocess.run("git -C %s apply --3way %s/patch.diff" % (wt, d), shell=True, capture_output=True, text=True)
+    if p.returncode != 0:
+        print("patch does not apply:", p.stderr); sys.exit(2)
+    h = os.path.join(scratch, "harness")
+    shutil.copytree("/verif/harness", h)
+    gm = open(os.path.join(h, "go.mod")).read().replace("=> /repo", "=> " + wt)
+    open(os.path.join(h, "go.mod"), "w").write(gm)
+    env = dict(os.environ, VERIF_REPO=wt, VERIF_HARNESS=h, VERIF_OUT=os.path.join(scratch, "out"))
     for pid in ids:
-        r = subprocess.run(["/verif/bin/check", pid, "--tier", tier], cwd="/verif", capture_output=True, text=True)
+        r = subprocess.run(["/verif/bin/check", pid, "--tier", tier], cwd="/verif", capture_output=True, text=True, env=env)
         lines = [l for l in r.stdout.splitlines() if l.startswith(("VIOLATION", "OK", "INCONCLUSIVE", "KNOWN"))]
+        why = [l.strip()[:300] for l in r.stderr.splitlines() if "rejected" in l or "violated" in l or "differs" in l][:2]
         res[pid] = {"exit": r.returncode, "lines": lines[:3]}
-        print(pid, r.returncode, lines[:2])
+        print(name, pid, r.returncode, lines[:1], why[:1])
 finally:
-    subprocess.run("git -C /repo reset -q --hard HEAD", shell=True)
-    shutil.rmtree("/verif/replays", ignore_errors=True)
+    subprocess.run(["git", "-C", "/repo", "worktree", "remove", "--force", wt], capture_output=True)
+    shutil.rmtree(scratch, ignore_errors=True)
 meta = json.load(open(os.path.join(d, "meta.json")))
 det = meta.get("detected_by") or {}
 for pid, r in res.items():
